@@ -28,9 +28,19 @@ def needs_no_quotes(v):
     return v != "" and not any(c in v for c in ' \t"#') and not (v.startswith("//") or v.startswith("/*"))
 
 
-def hosts(v):
-    """(host name, document text, function extracting the field from the catalog JSON)"""
-    q = quote(v)
+# what may follow a parameter on its line without being part of it
+TAILS = ["", "\t", "\t# c", " \t ", "  # c", "\t\t"]
+TAILMARK = "\x00TAIL\x00"
+
+
+def hosts(v, tail=""):
+    """(host name, document text, function extracting the field from the catalog JSON); tail: blanks / a comment written
+    right after the parameter"""
+    return [(h, t.replace(TAILMARK, tail), g) for h, t, g in _hosts(v)]
+
+
+def _hosts(v):
+    q = quote(v) + TAILMARK
     res = [
         ("title", 'JSIGHT 0.3\nINFO\n  Title %s\n' % q, lambda c: c["info"]["title"]),
         ("version", 'JSIGHT 0.3\nINFO\n  Version %s\n' % q, lambda c: c["info"]["version"]),
@@ -41,8 +51,8 @@ def hosts(v):
          lambda c: next(iter(c["interactions"].values()))["method"]),
     ]
     pv = "/" + v
-    res.append(("url_path", 'JSIGHT 0.3\nURL %s\n  GET\n    200 any\n' % quote(pv), lambda c: next(iter(c["interactions"].values()))["path"]))
-    res.append(("method_path", 'JSIGHT 0.3\nGET %s\n  200 any\n' % quote(pv), lambda c: next(iter(c["interactions"].values()))["path"]))
+    res.append(("url_path", 'JSIGHT 0.3\nURL %s\n  GET\n    200 any\n' % (quote(pv) + TAILMARK), lambda c: next(iter(c["interactions"].values()))["path"]))
+    res.append(("method_path", 'JSIGHT 0.3\nGET %s\n  200 any\n' % (quote(pv) + TAILMARK), lambda c: next(iter(c["interactions"].values()))["path"]))
     return res
 
 
@@ -74,7 +84,8 @@ def main(tier):
     for v in vals:
         if v.strip() != v or v == "":      # leading/trailing blanks inside quotes are content; keep them too
             pass
-        for host, text, get in hosts(v):
+        tail = TAILS[(n // 7) % len(TAILS)] if (thorough or len(v) <= 1 or n % 3 == 0) else ""
+        for host, text, get in hosts(v, tail):
             cid = "h%d" % n
             n += 1
             cases.append(rel.case(cid, text))
